@@ -45,7 +45,7 @@ ASSUMPTIONS = [
 REQUIRED = ['entry:' + e for e in ENTRIES] + ['indep', 'gen', 'other:trunc', 'step:npseed', 'step:pyseed',
                                                'same_family_outputs', 'times:repeated', 'seed:numpy_int', 'pop:hetero_small_calls',
                                                'pop:noncentered:gauss', 'pop:noncentered:lognorm', 'pop:trunc', 'pop:cov', 'partial_block',
-                                               'em:negative_output']
+                                               'em:negative_output', 'nested_block_streams']
 SEEDS = st.integers(0, 2 ** 31 - 2)
 GEN_ENTRIES = ('em', 'pop', 'pred', 'poppred', 'prior', 'post')
 DF_ENTRIES = ('prior', 'post', 'pam')
@@ -152,7 +152,7 @@ def _target(draw, entry):
         return t
     if entry == 'pop':
         n_ids = draw(st.integers(1, 4))
-        pop = popgen.draw_pop(draw, n_ids, max_parts=3, max_dim=2, p_cov=0.3, p_red=0)
+        pop = popgen.draw_pop(draw, n_ids, max_parts=3, max_dim=2, p_cov=0.3, p_red=0, p_nested=0.35)
         if gen.chance(draw, 0.3):
             # a heterogeneous part over several individuals (no covariates)
             n_ids = draw(st.integers(2, 4))
@@ -657,6 +657,9 @@ def classify(spec):
     ks = _kinds_of_outputs(spec)
     if len(ks) >= 2 and len(set(ks)) < len(ks):
         labs.append('same_family_outputs')
+    if spec['entry'] == 'pop' and spec['target']['pop']['kind'] == 'comp' and len(spec['target']['pop']['parts']) >= 2 and \
+            spec['target']['pop']['parts'][0]['kind'] == 'comp':
+        labs.append('pop:nested_block_with_later_sibling')
     if spec['entry'] == 'em' and any(v < 0 for v in spec['target']['ybar']):
         labs.append('em:negative_output')
         labs.append('em:negative_output:' + spec['target']['kind'])
@@ -851,6 +854,29 @@ def check(case):
                 n_distinct = int(np.unique(big[:, c]).size)
                 case.true(n_distinct == 8000, 'dimension %d: %d of 8000 individuals sampled in one call share their value '
                           'with another individual (continuous distribution)' % (c, 8000 - n_distinct), kind='identical')
+
+    # ---- nested blocks: every dimension of a composition has a stream of its own, also the dimensions of a nested block
+    # next to later siblings of the outer model (streams that are derived per position collide across the levels)
+    if ran and entry == 'pop':
+        with case.clause('nested_block_streams:' + entry):
+            import chi
+            blocks = [chi.ComposedPopulationModel([chi.GaussianModel(), chi.LogNormalModel()]), chi.GaussianModel(),
+                      chi.ComposedPopulationModel([chi.GaussianModel(), chi.GaussianModel()]), chi.LogNormalModel()]
+            nm = chi.ComposedPopulationModel(blocks)
+            th_n = np.array([0.5, 0.3] * 6)
+            x_n = np.asarray(nm.sample(th_n, n_samples=4000, seed=seeds['A']), dtype=float)
+            case.equal(x_n.shape, (4000, 6), 'shape of the samples of a nested composition', kind='shape')
+            z_n = x_n.copy()
+            for c in (1, 5):
+                z_n[:, c] = np.log(z_n[:, c])
+            r_n = np.corrcoef(z_n.T)
+            worst = max((abs(r_n[a, b]), a, b) for a in range(6) for b in range(a + 1, 6))
+            # (independent columns: |r| ~ 1 / sqrt(4000) = 0.016; 0.15 is more than nine standard deviations)
+            case.true(worst[0] < 0.15, 'dimensions %d and %d of a nested composition (blocks of 2, 1, 2, 1 dimensions) sampled in '
+                      'one call with seed %d are correlated: r = %.4f over 4000 individuals' % (worst[1], worst[2], seeds['A'],
+                                                                                             r_n[worst[1], worst[2]]),
+                      kind='corr')
+            case.labels.append('nested_block_streams')
 
     if ran and meta.get('relabel_call') is not None:
         with case.clause('label_independent:' + entry):
